@@ -8,7 +8,7 @@ import random
 PROPERTY = "C08"
 RULE = (
     "Total / Average / PerAntenna / PeakAmplitude / PAPR / Composite / create_ofdm_constraints / create_mimo_constraints / apply_constraint_chain / combine_constraints x targets "
-    "1e-3..1e3 x real/complex x shapes (N,), (1,N), (B,N), (B,A,N), (B,A,H,W) x signal families {Gaussian, uniform, OFDM-like, heavy-tailed, constant, sign-alternating} x input "
+    "1e-3..1e3 x real/complex x shapes (N,), (1,N), (B,N), (B,A,N), (B,A,H,W) x signal families {Gaussian, uniform, OFDM-like, heavy-tailed, constant, sign-alternating, one-sided negative, negative spikes} x input "
     "scales 1e-2..1e4 x random chains of 2-4 constraints. Per item (index along dim 0 when batched, else the whole tensor): power law, positive real scaling, idempotence, scale "
     "invariance, peak / PAPR bounds, composite = sequential application. Distinct = (constraint configuration, signal family, shape, scale, seed); non-trivial = non-zero item."
 )
@@ -22,7 +22,7 @@ ASSUMPTIONS = [
 REQUIRED = ["power:never above target", "power:equal within 0.1%", "positive real scaling", "idempotent", "scale invariant", "peak amplitude bound", "PAPR bound", "composite = sequential", "factory composites satisfy all limits"]
 JOBS = {"quick": 8, "thorough": 16}
 TIMEOUT = {"quick": 900, "thorough": 3600}
-FAMILIES = ["gaussian", "uniform", "ofdm", "heavy", "constant", "alternating"]
+FAMILIES = ["gaussian", "uniform", "ofdm", "heavy", "constant", "alternating", "negative", "neg_spike"]
 
 
 def units(tier, seed):
@@ -57,6 +57,13 @@ def signal(family, shape, cplx, scale, g):
         if family == "ofdm":
             ph = torch.rand(shape, generator=g) * 2 * math.pi
             return torch.fft.ifft(torch.polar(torch.ones(shape), ph), dim=-1).real * math.sqrt(shape[-1])
+        if family == "negative":  # one-sided: every sample negative (largest *signed* value is the smallest magnitude)
+            return -(torch.rand(shape, generator=g) + 0.2)
+        if family == "neg_spike":  # small positive samples and isolated large negative spikes
+            t = torch.rand(shape, generator=g) * 0.1
+            flat = t.reshape(-1)
+            flat[:: max(3, n // 5)] = -(1.0 + torch.rand(flat[:: max(3, n // 5)].shape, generator=g))
+            return flat.reshape(shape)
         raise ValueError(family)
 
     x = base()
@@ -271,7 +278,7 @@ def run_unit(ctx, u):
 
     if kind == "ofdm_factory":
         for shape, cplx, fam, sc, x in cases([(64,), (1, 64), (4, 64), (2, 3, 32)]):
-            if fam in ("heavy",):
+            if fam in ("heavy", "neg_spike"):
                 continue  # sparse: PAPR limit not attainable by clipping
             n_item = x[0].numel() if (x.dim() > 1 and x.shape[0] > 1) else x.numel()
             for P_per in (0.1, 1.0, 20.0):
@@ -302,7 +309,7 @@ def run_unit(ctx, u):
 
     if kind == "mimo_factory":
         for shape, cplx, fam, sc, x in cases([(3, 4, 32), (2, 2, 64), (2, 3, 4, 8)]):
-            if fam == "heavy":
+            if fam in ("heavy", "neg_spike"):
                 continue
             A = shape[1]
             for tgt in (0.1, 1.0, 10.0):
